@@ -99,6 +99,33 @@ def run(tier, seed):
                     B.run_case(pol, a, "record", "accept", f"{curve.name} leading-zero coordinate")
             if found >= (3 if quick else 12):
                 break
+    # keys sharing a coordinate with a key seen earlier in the process: the negated point (x, p-y) is a different valid key;
+    # (x, y+1) is not on the curve.  Each is presented AFTER a verification under P (a history, in case anything is remembered)
+    ORDER = {"secp256r1": 0xFFFFFFFF00000000FFFFFFFFFFFFFFFFBCE6FAADA7179E84F3B9CAC2FC632551,
+             "secp384r1": 0xFFFFFFFFFFFFFFFFFFFFFFFFFFFFFFFFFFFFFFFFFFFFFFFFC7634D81F4372DDF581A0DB248B0A77AECEC196ACCC52973,
+             "secp521r1": int("1" + "F" * 65 + "A51868783BF2F966B7FCC0148F709A5D03BB5C9B8899C47AEBB6FB71E91386409", 16)}
+    for kind in ("ES256-P256", "ES256-P384", "ES512-P521"):
+        P = authsim.Cred(kind, slot=3)
+        d = P.sk.private_numbers().private_value
+        negsk = ec.derive_private_key(ORDER[P.pk.curve.name] - d, P.pk.curve)
+        N = authsim.Cred(kind, sk=negsk)
+        assert N.cose[-2] == P.cose[-2] and N.cose[-3] != P.cose[-3]
+        s = authcat.Scn(kind)
+        s.cred_id = b"negated-point-" + kind.encode()
+        pol0, a = s.build()
+        msg = a.ad + hashlib.sha256(a.cdj).digest()
+        for rnd in range(2):
+            for (stored, signer, exp, what) in ((P, P, "accept", "P signs, P stored"), (N, P, "reject", "P signs, -P stored"),
+                                                (N, N, "accept", "-P signs, -P stored"), (P, N, "reject", "-P signs, P stored")):
+                a.sig = signer.sign(msg)
+                pol = impl.AuthPolicy(pol0.challenge, pol0.rp_id, pol0.origin, stored.cose_bytes, pol0.count, False)
+                B.run_case(pol, a, "record", exp, f"{P.pk.curve.name} negated point: {what}")
+                check_decode(stored.cose_bytes, stored.pk, f"{P.pk.curve.name} negated-point history")
+        off = dict(P.cose)
+        off[-3] = (int.from_bytes(P.cose[-3], "big") ^ 1).to_bytes(len(P.cose[-3]), "big")
+        a.sig = P.sign(msg)
+        pol = impl.AuthPolicy(pol0.challenge, pol0.rp_id, pol0.origin, cbor2.dumps(off), pol0.count, False)
+        B.run_case(pol, a, "record", "reject", f"{P.pk.curve.name} point not on the curve (y^1) after a verification under (x, y)")
     for slot in range(2):
         c = authsim.Cred("RS256", slot=slot)
         m = c.cose_map()
